@@ -167,6 +167,9 @@ RECIPES += [
     _neutral("ts_unc_generator", "SolveUnc.generator: setattr loop over zip, body picked by a conditional expression, body(*args), generator.send(None)"),
     _neutral("ts_se2_generator", "SolveExp2.generator: chained assignment with starred unpacking, generator.__next__()"),
     _neutral("ts_finalize", "finalize: published arrays taken into a dict by a helper (getattr / delattr with built names), **state calls, dict.pop"),
+    ("C08", "break", ["C08-R1"], UNC, "                        F0 = Force[:, i - 1]\n                        di = d[:, i - 1]\n                        vi = v[:, i - 1]\n                        d[:, i] = F * di + G * vi + A * F0 + B * F1\n",
+     "                        F0 = Force[:, i - 1]\n                        rf_before = drf[:, i]\n                        di = d[:, i - 1]\n                        vi = v[:, i - 1]\n                        d[:, i] = F * di + G * vi + A * F0 + B * F1\n",
+     "a send reads a local that is bound only when there are rf equations (UnboundLocalError; the value is never used)"),
     # ---- one wrong edit inside each new form
     _break("batch_inner", ["C08-R2"], "            fnext = fk[:, k + 1]", "            fnext = fk[:, k]", "refactored batch loop reads the force of the wrong column"),
     _break("batch_inner", ["C08-R2"], "        D[:, k + 1] = dprev = dnew", "        D[:, k + 1] = dnew", "refactored batch loop never advances the displacement it carries"),
@@ -187,11 +190,13 @@ RECIPES += [
     _break("gen_cdf_dict", ["C08-R1"], '        cache = {"force": bo @ V[:, 0], "step": 0}', '        cache = {"force": bo @ V[:, 0], "step": 1}', "dict cache tagged with step 1"),
     _break("gen_cdf_dict", ["C08-R2"], "            vi = V[:, i - 1]\n            dmpfrc0 = damping_force_at_start(i, vi)", "            vi = V[:, i]\n            dmpfrc0 = damping_force_at_start(i, vi)",
            "nested step function reads the velocity of the column being written"),
+    _break("gen_cdf_dict", ["C08-R7"], "            v_part = Bp * F1k\n            dmpfrc1_addon = alpha @ v_part\n", "            v_part = np.multiply(Bp, F1k, out=Bp)\n            dmpfrc1_addon = alpha @ v_part\n",
+           "nested add-on helper computes into the solver's own Bp (out=)"),
     _break("gen_cdf_dict", ["C08-R3"], "                    if first_order:\n                        add_on(i, F1)", "                    if not first_order:\n                        add_on(i, F1)",
            "add-on helper called for the zero-order hold only"),
     _break("gen_cdf_tuple", ["C08-R1"], "cdstate[0] if cdstate[1] == i - 1 else bo @ vi", "cdstate[0] if cdstate[1] == i else bo @ vi", "tuple state: guard compares with the current step"),
     _break("gen_cdf_tuple", ["C08-R1"], "                        cdstate = alpha @ v_part, i\n", "                        cdstate = alpha @ v_part, cdstate[1]\n", "tuple state: the tag is never advanced"),
-    _break("gen_cdf_tuple", ["C08-R1", "C08-R3"], "                        cdstate = frc, step\n", "                        cdstate = cdstate[0] - dmpfrc1_addon, step\n", "tuple state: the add-on moves the cached force the wrong way"),
+    _break("gen_cdf_tuple", ["C08-R1", "C08-R3"], "                        frc += dmpfrc1_addon\n", "                        frc -= dmpfrc1_addon\n", "tuple state: the add-on moves the cached force the wrong way"),
     _break("gen_cdf_tuple", ["C08-R1"], "                cdstate = bo @ V[:, 0], i_last\n", "                cdstate = bo @ D[:, 0], i_last\n", "tuple state: initial cache from the displacement"),
     _break("gen_cdf_namespace", ["C08-R1"], "                        if cd.step != i - 1:\n                            cd.force = bo @ vi", "                        if cd.step == i - 1:\n                            cd.force = bo @ vi",
            "namespace state: recomputes only when the cache is valid"),
